@@ -150,8 +150,15 @@ class BlockSeries:
                     dimension_names=self.dimension_names,
                 )
 
+            def packed_eval(*index):
+                # Orders are requested as length-1 slices: integers would be advanced
+                # indices, and numpy moves the broadcast axes of advanced indices that
+                # are separated by a slice to the front.
+                values = self[item + tuple(slice(i, i + 1) for i in index)]
+                return values.filled(zero).reshape(values.shape[: -self.n_infinite])
+
             packed = BlockSeries(
-                eval=lambda *index: self[item + index].filled(zero),
+                eval=packed_eval,
                 shape=(),
                 n_infinite=self.n_infinite,
             )
